@@ -74,63 +74,108 @@ def touches(body, adts, field):
 def where(ctx, report, facts, config, rule="C12.WHERE"):
     prog = ctx.program(facts)
     n = 0
+    by_q = dict((b.qname, b) for b in facts.bodies.values())
+    audited_cone = facts.cone([by_q[q] for q in ALLOWED_TOUCH if q in by_q])
     for b in sorted(facts.bodies.values(), key=lambda b: b.key):
         hits = touches(b, (A.DISP, A.AD, A.DB), "thread_local")
         if not hits:
             continue
         n += 1
         report.touched(b, config)
-        ok = b.qname in ALLOWED_TOUCH and not b.is_closure
+        rootb = b
+        while rootb.is_closure and rootb.parent_key in facts.bodies:
+            rootb = facts.bodies[rootb.parent_key]
+        ok = rootb.qname in ALLOWED_TOUCH
+        why = ALLOWED_TOUCH.get(rootb.qname)
+        if not ok and rootb.key in audited_cone and not rootb.raw.get("pub"):
+            # a private helper only the audited bodies call: where it runs is decided by C12.CTX on its callers
+            ok = True
+            why = "private helper of the audited bodies"
         report.ob(rule, "touch/%s" % b.qname, ok,
-                  ALLOWED_TOUCH.get(b.qname, "the thread-local list is accessed in %s, which is not one of the audited bodies%s" % (
-                      b.qname, " (a closure: it may run on a pool worker)" if b.is_closure else "")), site=b.loc(hits[0]), config=config)
+                  why or "the thread-local list is accessed in %s, which is not one of the audited bodies" % b.qname, site=b.loc(hits[0]), config=config)
     report.floor(rule, "bodies touching thread_local", n, 8 if ctx.parallel(config) else 6, config=config)
-    # run_now on elements only in the two loops
-    for b in sorted(facts.bodies.values(), key=lambda b: b.key):
-        bt = prog.bt(b)
-        for tr in traversals(prog, b):
-            base, path = root(tr.source, bt, facts.crate)
-            if path and path[-1] == "thread_local":
-                runs = [bb for bb, t in b.normal_calls() if bb in tr.loop and Callee(t["func"]).name in F.LIFECYCLE[F.RUN]]
-                if runs:
-                    ok = b.qname in (A.DISP + "::dispatch_thread_local", A.AD + "::wait")
-                    report.ob(rule, "run/%s" % b.qname, ok, "thread-local systems are run in %s" % b.qname, site=b.loc(runs[0]), config=config)
-    # the two loops are not inside a closure handed to the pool: they are plain methods (checked above: not closures),
-    # and no caller wraps them: callers of dispatch_thread_local are Dispatcher::dispatch only (lib)
-    dtl = facts.one(A.DISP + "::dispatch_thread_local")
-    callers = facts.callers().get(dtl.key, [])
-    for cb, bb in callers:
-        ok = (not cb.is_closure) and cb.qname == A.DISP + "::dispatch"
-        report.ob(rule, "caller/%s" % cb.qname, ok, "dispatch_thread_local is called from %s%s" % (cb.qname, " (a closure)" if cb.is_closure else ""),
-                  site=cb.loc(bb), config=config)
-    report.floor(rule, "callers of dispatch_thread_local", len(callers), 1, config=config)
-    disp = facts.one(A.DISP + "::dispatch")
-    for cb, bb in facts.callers().get(disp.key, []):
-        report.ob(rule, "dispatch-caller/%s" % cb.qname, not cb.is_closure,
-                  "Dispatcher::dispatch is called from %s%s" % (cb.qname, " (a closure: thread-local systems could leave the caller's thread)" if cb.is_closure else ""),
-                  site=cb.loc(bb), config=config)
+
+
+CTX_OPAQUE = set(["run_now", "run", "execute", "execute_seq", "setup", "dispose", "inner", "sender", "inner_noblock", "reads", "writes"])
+
+
+def _walk_ctx(ev, events, depth, hits, order, is_tl, is_inner):
+    """Visit events with the pool-nesting depth: `hits` gets (depth, site) for everything that runs thread-local
+    systems, `order` the sequence of ('tl' | 'inner') markers at the top level."""
+    from ..semcov import sroot
+    for x in events:
+        if x[0] == "once":
+            depth += 1
+        elif x[0] == "once-end":
+            depth -= 1
+        elif x[0] == "call":
+            if x[3] and is_tl(sroot(ev, x[3][0])) and x[2].name in F.LIFECYCLE[F.RUN]:
+                hits.append((depth, ev.loc(x[1])))
+                order.append("tl")
+            elif x[3] and is_inner(sroot(ev, x[3][0])):
+                order.append("inner")
+        elif x[0] == "loop":
+            L = x[1]
+            r = sroot(ev, L.source) if L.source is not None else (None, [])
+            d2 = depth + (1 if L.kind == "model:par_for_each" else 0)
+            if is_tl(r):
+                sub = []
+                for it in L.iters:
+                    _walk_ctx(ev, it.path.events, d2, sub, [], lambda r_: r_[0] == L.elem or is_tl(r_), is_inner)
+                if sub or True:
+                    hits.append((d2, ev.loc(L.site)))
+                    order.append("tl")
+            else:
+                if is_inner(r):
+                    order.append("inner")
+                for it in L.iters:
+                    _walk_ctx(ev, it.path.events, d2, hits, order if is_inner(r) else [], is_tl, is_inner)
+    return depth
+
+
+def context(ctx, report, facts, config, rule="C12.CTX"):
+    """Wherever thread-local systems are run, it is on the calling thread (outside every rayon install / join / spawn /
+    scope / parallel for_each), and after the ordinary systems of the same dispatch."""
+    from ..sem import Evaluator, Policy
+    entries = [(A.DISP + "::dispatch", ["inner"]), (A.DISP + "::dispatch_par", ["inner"]), (A.DISP + "::dispatch_seq", ["inner"]),
+               (A.DISP + "::dispatch_thread_local", ["inner"])]
+    if ctx.parallel(config):
+        entries.append((A.AD + "::wait", ["data"]))
+        entries.append((A.AD + "::dispatch", ["data"]))
+    n_tl = 0
+    for q, inner_path in entries:
+        b = facts.maybe(q)
+        if b is None:
+            if q.endswith("dispatch_par") and not ctx.parallel(config):
+                continue
+            report.ob(rule, "ANCHOR/%s" % q, False, "anchor %s not found" % q, config=config)
+            continue
+        report.touched(b, config)
+        ev = Evaluator(facts, Policy(opaque_names=CTX_OPAQUE))
+        ends = [e for e in ev.eval(b) if e.kind == "return"]
+        pr = []
+        for e in ends:
+            hits, order_ = [], []
+            is_tl = lambda r: r[0] == SELF and r[1][:1] == ["thread_local"]
+            is_inner = lambda r: r[0] == SELF and r[1][:1] == inner_path or (isinstance(r[0], tuple) and r[0][:1] == ("call",) and ev.callee(r[0][1]) is not None and ev.callee(r[0][1]).name in ("inner", "sender"))
+            _walk_ctx(ev, e.path.events, 0, hits, order_, is_tl, is_inner)
+            for d_, site in hits:
+                n_tl += 1
+                if d_ > 0:
+                    pr.append("thread-local systems are run inside a thread-pool combinator (%s): they can leave the calling thread" % site)
+            if "tl" in order_ and "inner" in order_[order_.index("tl"):]:
+                pr.append("ordinary systems are dispatched after the thread-local ones")
+            if q.endswith("::dispatch") and q.startswith(A.DISP) and ("tl" not in order_ or "inner" not in order_):
+                pr.append("a dispatch does not run both the ordinary and the thread-local systems")
+            if q.endswith("::wait") and ("tl" not in order_ or "inner" not in order_):
+                pr.append("wait does not take the state back before running the thread-local systems")
+        report.ob(rule, q.replace(A.C + "::dispatch::", ""), not pr and bool(ends),
+                  "thread-local systems run on the caller, after the ordinary ones" if not pr else "; ".join(sorted(set(pr))), site=b.loc(), config=config)
+    report.floor(rule, "places where thread-local systems are run", n_tl, 2, config=config)
 
 
 def order(ctx, report, facts, config, rule="C12.ORDER"):
-    prog = ctx.program(facts)
-    b = facts.one(A.DISP + "::dispatch")
-    report.touched(b, config)
-    bt = prog.bt(b)
-    inner = [bb for bb, t in b.normal_calls() if Callee(t["func"]).name == "dispatch" and root(bt.call_args(bb)[0], bt, facts.crate) == (SELF, ["inner"])]
-    tl = [bb for bb, t in b.normal_calls() if Callee(t["func"]).name == "dispatch_thread_local"]
-    ok = len(inner) == 1 and len(tl) == 1 and bt.cfg.dominates(inner[0], tl[0]) and inner[0] != tl[0]
-    report.ob(rule, "Dispatcher::dispatch", ok, "self.inner.dispatch(world) dominates self.dispatch_thread_local(world)" if ok else
-              "the ordinary dispatch does not precede the thread-local systems on every path (inner: %s, thread-local: %s)" % (inner, tl),
-              site=b.loc(tl[0]) if tl else b.loc(), config=config)
-    if ctx.parallel(config):
-        b = facts.one(A.AD + "::wait")
-        report.touched(b, config)
-        bt = prog.bt(b)
-        inn = [bb for bb, t in b.normal_calls() if Callee(t["func"]).name == "inner" and Callee(t["func"]).self_head == A.AD_DATA]
-        loops = [tr for tr in traversals(prog, b) if root(tr.source, bt, facts.crate) == (SELF, ["thread_local"])]
-        ok = len(inn) >= 1 and len(loops) == 1 and bt.cfg.dominates(inn[0], loops[0].into_iter_bb if loops[0].into_iter_bb is not None else loops[0].header)
-        report.ob(rule, "AsyncDispatcher::wait", ok, "the blocking self.data.inner() dominates the thread-local loop" if ok else
-                  "wait does not take the state back (blocking) before running thread-local systems", site=b.loc(), config=config)
+    context(ctx, report, facts, config, rule)
 
 
 def convert(ctx, report, facts, config, rule="C12.CONVERT"):
